@@ -125,6 +125,7 @@ type Exec struct {
 	goroutines int
 	randBudget int
 	mapOrders  bool
+	mapOrderFn string
 	expectPanicDepth int
 	local            *localCtx
 	mergeFns         map[string]bool
@@ -213,6 +214,7 @@ func (ex *Exec) resetPath(item workItem) {
 	ex.goroutines = 0
 	ex.randBudget = 0
 	ex.mapOrders = false
+	ex.mapOrderFn = ""
 	ex.expectPanicDepth = 0
 	ex.curFrame = nil
 	ex.clock = nil
@@ -2141,7 +2143,15 @@ func (ex *Exec) copyOp(dst, src Value) Value {
 	return nil
 }
 
-func (ex *Exec) cfgMapOrders() bool  { return ex.mapOrders }
+func (ex *Exec) cfgMapOrders() bool {
+	if !ex.mapOrders {
+		return false
+	}
+	if ex.mapOrderFn == "" {
+		return true
+	}
+	return ex.curFrame != nil && strings.Contains(ex.curFrame.fn.String(), ex.mapOrderFn)
+}
 func (ex *Exec) cfgHavocFloat() bool { return true }
 
 func debugf(format string, a ...interface{}) {
